@@ -913,6 +913,35 @@ static json_t *json_digest(const char *text, size_t len)
 	return r;
 }
 
+/* C05: digest of a JSON object text without the members the library adds
+ * (header: alg, typ; claims: iat, nbf, exp), and those members as a list */
+static void split_lib_members(const char *text, size_t len, int ishdr, json_t **rest_digest, json_t **small)
+{
+	json_error_t e;
+	json_t *o = json_loadb(text, len, JSON_ALLOW_NUL, &e);
+	static const char *hn[] = {"alg", "typ", NULL}, *cn[] = {"exp", "iat", "nbf", NULL};
+	const char **names = ishdr ? hn : cn;
+	char *s; unsigned char d[32]; char *h;
+	*small = json_array();
+	if (!o || !json_is_object(o)) { if (o) json_decref(o); *rest_digest = json_string("#notobj"); return; }
+	for (int i = 0; names[i]; i++) {
+		json_t *v = json_object_get(o, names[i]);
+		if (v) { json_array_append_new(*small, project_member(names[i], v)); json_object_del(o, names[i]); }
+	}
+	s = json_dumps(o, JSON_COMPACT | JSON_SORT_KEYS | JSON_ENSURE_ASCII);
+	SHA256((unsigned char *)s, strlen(s), d);
+	h = hexenc(d, 16);
+	*rest_digest = json_string(h);
+	free(h); free(s); json_decref(o);
+}
+static void add_split(json_t *ev, const char *text, size_t len, int ishdr, const char *restname, const char *smallname)
+{
+	json_t *r, *sm;
+	split_lib_members(text, len, ishdr, &r, &sm);
+	json_object_set_new(ev, restname, r);
+	json_object_set_new(ev, smallname, sm);
+}
+
 /* the library frees with its own allocator: json getter results come from
  * jansson's allocator, which jwt_set_alloc may have redirected */
 static void lib_free(void *p)
@@ -1101,13 +1130,17 @@ static int generic_cb(jwt_t *jwt, jwt_config_t *config)
 		} else if (!strcmp(k, "read")) {
 			/* log header and claims as seen by the callback */
 			jwt_value_t jv;
-			json_object_set_new(r, "hdr", whole_map(jwt, g_jh));
-			json_object_set_new(r, "clm", whole_map(jwt, g_jc));
+			if (jint(st, "full", 0)) {
+				json_object_set_new(r, "hdr", whole_map(jwt, g_jh));
+				json_object_set_new(r, "clm", whole_map(jwt, g_jc));
+			}
 			json_object_set_new(r, "alg", json_string(alg_name(jwt_get_alg(jwt))));
 			jwt_set_GET_JSON(&jv, NULL);
-			if (jwt_header_get(jwt, &jv) == JWT_VALUE_ERR_NONE && jv.json_val) { json_object_set_new(r, "hdig", json_digest(jv.json_val, strlen(jv.json_val))); lib_free(jv.json_val); }
+			if (jwt_header_get(jwt, &jv) == JWT_VALUE_ERR_NONE && jv.json_val) { add_split(r, jv.json_val, strlen(jv.json_val), 1, "hrest", "hsmall"); lib_free(jv.json_val); }
+			else { json_object_set_new(r, "hrest", json_string("#geterr")); json_object_set_new(r, "hsmall", json_array()); }
 			jwt_set_GET_JSON(&jv, NULL);
-			if (jwt_claim_get(jwt, &jv) == JWT_VALUE_ERR_NONE && jv.json_val) { json_object_set_new(r, "cdig", json_digest(jv.json_val, strlen(jv.json_val))); lib_free(jv.json_val); }
+			if (jwt_claim_get(jwt, &jv) == JWT_VALUE_ERR_NONE && jv.json_val) { add_split(r, jv.json_val, strlen(jv.json_val), 0, "crest", "csmall"); lib_free(jv.json_val); }
+			else { json_object_set_new(r, "crest", json_string("#geterr")); json_object_set_new(r, "csmall", json_array()); }
 			json_object_set_new(r, "cfgalg", json_string(alg_name(config->alg)));
 			json_object_set_new(r, "cfgkey", json_integer(config->key ? 1 : 0));
 		} else die("cb step %s", k);
@@ -1375,10 +1408,15 @@ static void project_token(json_t *ev, const char *tok, json_t *signkd, const cha
 	h = b64u_dec(tok, (size_t)(d1 - tok), &hl);
 	p = b64u_dec(d1 + 1, (size_t)(d2 - d1 - 1), &pl);
 	s = b64u_dec(d2 + 1, strlen(d2 + 1), &sl);
-	json_object_set_new(ev, "thdr", h ? project_objtext((char *)h, hl) : json_string("#notb64"));
-	json_object_set_new(ev, "tclm", p ? project_objtext((char *)p, pl) : json_string("#notb64"));
-	if (h) json_object_set_new(ev, "thdig", json_digest((char *)h, hl));
-	if (p) json_object_set_new(ev, "tcdig", json_digest((char *)p, pl));
+	if (h && hl + pl > 20000) {	/* big trees (C05): digests only */
+		json_object_set_new(ev, "thdr", marker_list("#big"));
+		json_object_set_new(ev, "tclm", marker_list("#big"));
+	} else {
+		json_object_set_new(ev, "thdr", h ? project_objtext((char *)h, hl) : marker_list("#notb64"));
+		json_object_set_new(ev, "tclm", p ? project_objtext((char *)p, pl) : marker_list("#notb64"));
+	}
+	if (h) add_split(ev, (char *)h, hl, 1, "threst", "thsmall"); else { json_object_set_new(ev, "threst", json_string("#notb64")); json_object_set_new(ev, "thsmall", json_array()); }
+	if (p) add_split(ev, (char *)p, pl, 0, "tcrest", "tcsmall"); else { json_object_set_new(ev, "tcrest", json_string("#notb64")); json_object_set_new(ev, "tcsmall", json_array()); }
 	/* canonical re-encoding check: segments are exactly the unpadded base64url of what they decode to */
 	{
 		int canon = 1;
@@ -1388,6 +1426,8 @@ static void project_token(json_t *ev, const char *tok, json_t *signkd, const cha
 		json_object_set_new(ev, "canon", json_integer(canon));
 	}
 	json_object_set_new(ev, "tsiglen", json_integer(s ? (json_int_t)sl : -1));
+	json_object_set_new(ev, "rs_short", json_integer(s && (((sl == 64 || sl == 96) && (s[0] == 0 || s[sl / 2] == 0)) ||
+			(sl == 132 && ((s[0] == 0 && s[1] == 0) || (s[66] == 0 && s[67] == 0)))) ? 1 : 0));
 	/* header alg as written */
 	{
 		const char *alg = "~";
@@ -1796,6 +1836,10 @@ static void run_op(json_t *op)
 		if (!o->obj) die("%s on missing object", name);
 		if (strcmp(name, "BMap") || strcmp(jstr(op, "k", "set"), "get")) json_array_append(o->cfg, op);
 		apply_cfg(o, isb, op, ev);
+		if (!strcmp(name, "BMap")) {
+			json_t *vv = json_object_get(ev, "v"), *tv = vv ? json_object_get(vv, "val") : NULL;
+			if (tv && json_is_string(tv) && json_string_length(tv) > 2000) json_object_set_new(vv, "val", json_string("#big"));
+		}
 		add_errmsg(ev, o, isb);
 		if (!strcmp(name + 1, "SetKey")) {
 			const jwk_item_t *it = item_at(op);
@@ -1847,13 +1891,31 @@ static void run_op(json_t *op)
 		const char *k; json_t *v;
 		long slot = jint(op, "slot", -1);
 		if (!o->obj) die("Generate on missing builder");
-		json_object_set_new(ev, "hdr_before", whole_map(o->obj, g_bh));
-		json_object_set_new(ev, "clm_before", whole_map(o->obj, g_bc));
+		if (!jint(op, "lite", 0)) {
+			json_object_set_new(ev, "hdr_before", whole_map(o->obj, g_bh));
+			json_object_set_new(ev, "clm_before", whole_map(o->obj, g_bc));
+		}
+		if (json_object_get(op, "hjson")) {
+			/* what the builder was given (the script repeats the texts): digests by the same canonicaliser */
+			const char *hj = jstr(op, "hjson", "{}"), *cj = jstr(op, "cjson", "{}");
+			char *th = NULL, *tc = NULL; size_t nh = strlen(hj), nc = strlen(cj);
+			if (!strncmp(hj, "#hex:", 5)) { th = (char *)hexdec(hj + 5, &nh); hj = th; }
+			if (!strncmp(cj, "#hex:", 5)) { tc = (char *)hexdec(cj + 5, &nc); cj = tc; }
+			add_split(ev, hj, nh, 1, "given_hrest", "given_hsmall");
+			add_split(ev, cj, nc, 0, "given_crest", "given_csmall");
+			free(th); free(tc);
+			json_object_del(ev, "hjson"); json_object_del(ev, "cjson");
+		}
 		res = generate_res(o, &tok);
 		json_object_foreach(res, k, v) json_object_set(ev, k, v);
 		json_decref(res);
-		json_object_set_new(ev, "hdr_after", whole_map(o->obj, g_bh));
-		json_object_set_new(ev, "clm_after", whole_map(o->obj, g_bc));
+		if (!jint(op, "lite", 0)) {
+			json_object_set_new(ev, "hdr_after", whole_map(o->obj, g_bh));
+			json_object_set_new(ev, "clm_after", whole_map(o->obj, g_bc));
+		} else {
+			json_object_set_new(ev, "hdr_after", marker_list("#lite"));
+			json_object_set_new(ev, "clm_after", marker_list("#lite"));
+		}
 		if (jint(op, "twin", 0)) {
 			struct cfgobj t; twin_make(&t, o, 1, 1);
 			json_object_set_new(ev, "fresh", generate_res(&t, NULL));
